@@ -127,6 +127,41 @@ theorem splitRaw_single (x : AnyObj) (hx : isRaw x = false) : (splitRaw [x]).2 =
 /-- `append_padding_` of a Dot1Q is object state that is not on the wire (KF-C04-L2-4); parsed objects never have it -/
 def NoApp (o : AnyObj) : Prop := ∀ q, o = .l2 (.dot1q q) → q.appendPadding = false
 
+/-- the layer hands the zero bytes behind its region on to the layers below it (`cut` is the identity): no length field of
+    its own delimits its payload -/
+def keeps : AnyObj → Bool
+  | .l2 x => !L2.isPppoe x
+  | .ip (.ip _) => false
+  | .ip6 _ => false
+  | .app (.arp _) => true
+  | .app (.vxlan _) => true
+  | .app _ => false
+  | .wifi (.dot11 _) => true
+  | .wifi _ => false
+  | _ => true
+
+theorem cut_of_keeps {x : AnyObj} (h : keeps x = true) (m : Nat) : cut x m = m := by
+  cases x with
+  | l2 o =>
+    have hp : L2.isPppoe o = false := by simpa [keeps] using h
+    simp [cut, L2.padTo, hp]
+  | ip o => cases o <;> first | rfl | cases h
+  | ip6 o => cases h
+  | app o => cases o <;> first | rfl | cases h
+  | wifi o => cases o <;> first | rfl | cases h
+  | raw p => rfl
+  | icmp o => rfl
+  | tr o => rfl
+
+/-- minimum-frame padding behind the stack reaches its innermost payload: no layer on the way cuts it off -/
+def passes : List AnyObj → Bool
+  | [] => true
+  | .raw _ :: _ => true
+  | x :: r => keeps x && passes r
+
+theorem passes_cons {x : AnyObj} {r : List AnyObj} (hx : isRaw x = false) : passes (x :: r) = (keeps x && passes r) := by
+  cases x <;> first | rfl | cases hx
+
 /-- the conclusion of `fix_all` -/
 def FixStep (x x' : AnyObj) (os os' : List AnyObj) (cx' : Ctx) (io out : Bytes) (k e2 : Nat) : Prop :=
   x'.hdr + x'.trl (sizeOfStack os') + e2 = x.hdr + x.trl (sizeOfStack os) + (if e2 = 0 then 0 else k) ∧
